@@ -16,6 +16,15 @@ def harness_exe(lib, asan=False):
     return C.build_c(lib, [HARNESS], 'c04_open' + ('_asan' if asan else ''), extra=ASAN_FLAGS if asan else None)
 
 
+def stable_copy(exe, wd):
+    """the library cache keeps only the most recent builds and is shared with concurrently running
+    checks: keep a private copy of a harness executable for the duration of this check"""
+    dst = os.path.join(wd, os.path.basename(exe))
+    if not os.path.exists(dst):
+        shutil.copy2(exe, dst)
+    return dst
+
+
 def model_exe():
     """extract coq/Reader.v to OCaml and build c04_model (cached on the hash of the sources)"""
     h = hashlib.sha1()
@@ -174,12 +183,12 @@ def run_impl(exe, path, chunk=None, np_=1, hints=(), maxdata=None, indep=False, 
         rc, out = C.sh([exe] + args, timeout=timeout, env=e)
     else:
         rc, out = C.mpirun(np_, exe, args, env=env, timeout=timeout)
-    r = dict(rc=rc, raw=out, lines=[], ranks_agree=None, rss_kb=None, wall_ms=None)
+    r = dict(rc=rc, raw=out, lines=[], ranks_agree=None, rss_kb=None, wall_ms=None, cpu_ms=None)
     for l in out.split('\n'):
         if l.startswith('ranks '):
             r['ranks_agree'] = l.split()[3] == '1'
         elif l.startswith('rusage '):
-            t = l.split(); r['rss_kb'] = int(t[2]); r['wall_ms'] = int(t[4])
+            t = l.split(); r['rss_kb'] = int(t[2]); r['wall_ms'] = int(t[4]); r['cpu_ms'] = int(t[6]) if len(t) > 6 else None
         elif l and re.match(r'^(open|format|inq|sizes|dim|att|var|data|idata|close|vard_zero) ', l):
             r['lines'].append(l)
     return r
@@ -237,3 +246,83 @@ def sanitizer_site(raw):
 def alloc_refused(raw):
     """sizes (bytes) of the allocation requests the sanitizer allocator refused (> max_allocation_size_mb)"""
     return [int(x, 16) for x in re.findall(r'AddressSanitizer failed to allocate (0x[0-9a-f]+) bytes', raw)]
+
+
+# ------------------------------------------------------------------ batch mode of the harness
+def _parse_batch(out):
+    """-> (finished {tag: result}, pending tag or None, text after the pending 'case' line)"""
+    done = {}
+    cur = None; lines = []; agree = None; buf = []
+    for l in out.split('\n'):
+        if l.startswith('case '):
+            cur = l.split(' ', 1)[1]; lines = []; agree = None; buf = []
+            continue
+        if cur is None:
+            continue
+        buf.append(l)
+        if l.startswith('endcase '):
+            t = l.split()
+            done[cur] = dict(status='done', lines=lines, ranks_agree=agree, wall_ms=int(t[1]), rss_kb=int(t[2]),
+                             cpu_ms=int(t[3]) if len(t) > 3 else None, raw='\n'.join(buf))
+            cur = None
+        elif l.startswith('ranks '):
+            agree = l.split()[3] == '1'
+        elif re.match(r'^(open|format|inq|sizes|dim|att|var|data|idata|close|vard_zero) ', l):
+            lines.append(l)
+    return done, cur, '\n'.join(buf)
+
+
+def run_batch(exe, cases, wd, np_=1, asan_mb=None, jobs=8, bsz=40, case_timeout=30, extra_env=None):
+    """cases: list of dict(tag, path, chunk=None|int, maxdata=int, flags='' , hints=[]).
+    One process handles up to bsz cases; when it dies (sanitizer abort, signal) or hangs, the case in
+    progress is recorded (status 'abort' / 'hang', raw = its output) and the rest is restarted.
+    Returns {tag: dict(status, lines, ranks_agree, wall_ms, rss_kb, raw)}"""
+    env = {}
+    if asan_mb is not None:
+        env['ASAN_OPTIONS'] = SAN_ENV['ASAN_OPTIONS'] % asan_mb
+        env['UBSAN_OPTIONS'] = SAN_ENV['UBSAN_OPTIONS']
+    if extra_env:
+        env.update(extra_env)
+    groups = [cases[i:i + bsz] for i in range(0, len(cases), bsz)]
+    def one(gi):
+        todo = list(groups[gi])
+        res = {}
+        n = 0
+        while todo:
+            n += 1
+            lp = os.path.join(wd, 'blist.%d.%d.%d' % (os.getpid(), gi, n))
+            with open(lp, 'w') as f:
+                for c in todo:
+                    f.write('%s %s %d %s %s %s\n' % (c['tag'], '-' if c.get('chunk') is None else c['chunk'],
+                                                     c.get('maxdata', 1 << 20), c.get('flags') or '-',
+                                                     ','.join(c.get('hints') or []) or '-', c['path']))
+            to = 60 + case_timeout + 2 * len(todo)
+            if np_ == 1:
+                e = dict(os.environ); e.update(env)
+                rc, out = C.sh([exe, '-B', lp], timeout=to, env=e)
+            else:
+                rc, out = C.mpirun(np_, exe, ['-B', lp], env=env, timeout=to)
+            os.remove(lp)
+            done, pending, tail = _parse_batch(out)
+            res.update(done)
+            rest = [c for c in todo if c['tag'] not in done]
+            if not rest:
+                break
+            if pending is None:
+                # died before/between cases (MPI start-up failure): blame nothing, retry once, then give up
+                if n >= 3:
+                    for c in rest:
+                        res[c['tag']] = dict(status='norun', lines=[], ranks_agree=None, wall_ms=None, rss_kb=None,
+                                             raw=out[-2000:])
+                    break
+                todo = rest
+                continue
+            res[pending] = dict(status='hang' if rc == -9 else 'abort', lines=[], ranks_agree=None, wall_ms=None,
+                                rss_kb=None, raw=tail[-6000:], rc=rc)
+            todo = [c for c in rest if c['tag'] != pending]
+        return res
+    res = {}
+    with cf.ThreadPoolExecutor(max_workers=jobs) as ex:
+        for r in ex.map(one, range(len(groups))):
+            res.update(r)
+    return res
